@@ -52,23 +52,24 @@ type Scenario struct {
 }
 
 type outcome struct {
-	sc         Scenario
-	chains     [][]*lib.Bundle
-	log        []entry
-	finalChain []headRec
-	converged  bool
-	quiescent  bool // stopped because nothing changed any more (logical-time criterion)
-	hang       string
-	panicMsg   string
-	drainLost  bool
-	plugin     []pluginCall
-	restarts   int
-	extra      []*fsub
-	skipped    bool
-	wall       time.Duration
-	hits       map[string]int
-	final      *blockchain.Blockchain
-	persisted  map[string]int
+	sc          Scenario
+	chains      [][]*lib.Bundle
+	log         []entry
+	finalChain  []headRec
+	converged   bool
+	quiescent   bool // stopped because nothing changed any more (logical-time criterion)
+	hang        string
+	panicMsg    string
+	drainLost   bool
+	afterReturn string
+	plugin      []pluginCall
+	restarts    int
+	extra       []*fsub
+	skipped     bool
+	wall        time.Duration
+	hits        map[string]int
+	final       *blockchain.Blockchain
+	persisted   map[string]int
 }
 
 // buildChains manufactures every epoch's chain with juno itself.
@@ -103,6 +104,7 @@ type syncListener struct {
 }
 
 func (l *syncListener) OnSyncStepDone(op string, n uint64, took time.Duration) {
+	l.rec.active("listener callback OnSyncStepDone(" + op + ")")
 	if op != junosync.OpStore {
 		return
 	}
@@ -128,6 +130,7 @@ func (l *syncListener) OnSyncStepDone(op string, n uint64, took time.Duration) {
 }
 
 func (l *syncListener) OnReorg(n uint64) {
+	l.rec.active("listener callback OnReorg")
 	l.rec.add(entry{Kind: eOnReorg, Num: n})
 	if l.churn != nil {
 		// between two reverts: every send so far is complete
@@ -238,6 +241,9 @@ func runScenario(sc Scenario) (out *outcome) {
 	shutdowns := append([]uint64{}, sc.Shutdowns...)
 	jit := lib.NewRNG(sc.Seed ^ 0x5707)
 	for inst := 0; ; inst++ {
+		rec.mu.Lock()
+		rec.returned = false
+		rec.mu.Unlock()
 		lis := &syncListener{rec: rec}
 		var ds junosync.DataSource = src
 		if sc.ViaFeeder {
@@ -283,6 +289,9 @@ func runScenario(sc Scenario) (out *outcome) {
 		runDone := make(chan string, 1)
 		go func() {
 			err, panicked, stack := lib.Try(func() error { return s.Run(ctx) })
+			rec.mu.Lock()
+			rec.returned = true
+			rec.mu.Unlock()
 			if panicked {
 				runDone <- fmt.Sprintf("%v\n%s", err, stack)
 				return
@@ -448,6 +457,7 @@ func runScenario(sc Scenario) (out *outcome) {
 	out.log = append([]entry{}, rec.log...)
 	out.finalChain = append([]headRec{}, rec.chain...)
 	out.plugin = append([]pluginCall{}, rec.plugin...)
+	out.afterReturn = rec.afterReturn
 	rec.mu.Unlock()
 	return out
 }
